@@ -558,6 +558,7 @@ def _check_main(ctx):
         "({E}) m", "({E}) m + ({F}) m", "({E}) kg / ({F}) s", "(({E}) km) to m", "({E}) m < ({F}) m", "({E}) degC",
         "{{{E}}}", "{{{E}, {F}}}", "{{1, {E}, {F} + 1}}", "sum({{{E}, {F}}})", "{E} in {{{E}, {F}}}",
         "{{x * {E} : x in {{1, 2, 3}}}}", "{{{E} / x : x in {{1, 2, 3}}}}", "{{{E} : x in {{1, 2}}}}", "{{x : x in {{{E}, {F}}}, x > 2}}",
+        "x = {E}; x * x / {F}", "x = {E}; x * x / x", "x = {E}; (x * x) / ({F} * x)", "x = {E}; y = {F}; x * y * x / y", "x = {E}; x * x * x / ({F} * {F})", "c = {E} * 1; c * c / 5",
         "x = {E}; x + 1", "x = {E}; y = x / {F}; y * 2", "x = {E}; x; x * {F}", "x = {E}; {{x, x}}", "x = {E}; x m",
     ]
     bcases = 0
